@@ -54,6 +54,14 @@ PROBES = ["event_queued_while_bytes_buffered", "two_scheduled_due", "equal_when"
           "cursor_query", "cursor_query_with_typeahead"]
 TRIGGERS = {}
 
+
+def extra_coverage(agg):
+    sites = sorted((int(x.split("|")[1]), int(x.split("|")[2])) for x in agg["states"] if x.startswith("S|"))
+    return {"distinct_preemption_sites_line_of_input_py": len(sites),
+            "preempted_app_thread_at_lines": [ln for ln, trig in sites if not trig],
+            "preempted_trigger_thread_at_lines": [ln for ln, trig in sites if trig]}
+
+
 KEYS_ASCII = [b"a", b"b", b"c", b"x", b"y", b"z", b" ", b"\n", b"\t", b"\x7f", b"\x01", b"\x04", b"1", b"Q", b"~", b"["]
 KEYS_MB = ["é".encode(), "ß".encode(), "€".encode(), "語".encode(), "😀".encode(), "λ".encode()]
 KEYS_ESC = [b"\x1b[A", b"\x1b[B", b"\x1b[C", b"\x1b[D", b"\x1bOP", b"\x1b[15~", b"\x1b[1;5C", b"\x1b[1;10A", b"\x1b[3~",
@@ -412,6 +420,7 @@ def run_plan(p, keep_log=False):
             res["error"] = res["error"] or "harness: %s" % e
     res["digest"] = world.log.digest()
     res["sim_s"] = world.now - world.t0
+    res["states"].update("S|%d|%d" % site for site in world.preempt_sites)
     res["nontrivial"] = bool(world.faults)
     if res["violation"] and p["sched"].get("mode") == "rng":
         q = planmod.clone(p)
